@@ -509,4 +509,3 @@ func runC12(w *mon.W) {
 		c12Case(w, s, d)
 	}
 }
-
